@@ -44,6 +44,13 @@ LitCount(template) ==
       lens == [i \in 1..Len(ts) |-> IF StrContains(ts[i], "{") THEN 0 ELSE Len(ts[i])]
   IN IF Len(ts) = 0 THEN 0 ELSE FoldLeft(LAMBDA a, b : a + b, 0, lens)
 VarCountOf(template) == Cardinality({i \in 1..Len(RxTokens(template)) : HasPrefix(RxTokens(template)[i], "{")})
+\* capturing groups of the compiled expression: one per variable plus the groups inside its own regex
+RECURSIVE CountCh(_, _)
+CountCh(s, c) == IF s = "" THEN 0 ELSE (IF Ch(s, 1) = c THEN 1 ELSE 0) + CountCh(SubSeq(s, 2, Len(s)), c)
+GroupCountOf(template) ==
+  LET ts == RxTokens(template)
+      gs == [i \in 1..Len(ts) |-> IF HasPrefix(ts[i], "{") THEN 1 + CountCh(ParseTok(ts[i]).re, "(") ELSE 0]
+  IN IF Len(ts) = 0 THEN 0 ELSE FoldLeft(LAMBDA a, b : a + b, 0, gs)
 VarNamesOf(template) ==
   LET ts == RxTokens(template) IN
   SelectSeq([i \in 1..Len(ts) |-> IF HasPrefix(ts[i], "{") THEN ParseTok(ts[i]).name ELSE ""], LAMBDA n : n # "")
@@ -72,14 +79,14 @@ JsrOutcomes(T, req) ==
                       ran |-> 0, selp |-> "", selm |-> ""]
       wm == [w \in 1..Len(T) |-> Rx(T[w].root, req.path)]
       disp == [w \in {x \in 1..Len(T) : wm[x].ok} |->
-                 [mc |-> VarCountOf(T[w].root) + 2, lc |-> LitCount(T[w].root), vc |-> VarCountOf(T[w].root)]]
+                 [mc |-> GroupCountOf(T[w].root) + 2, lc |-> LitCount(T[w].root), vc |-> VarCountOf(T[w].root)]]
   IN IF JsrUnsupported(T) THEN {}
      ELSE IF DOMAIN disp = {} THEN {Err(404, <<>>)}
      ELSE UNION {
        LET S == T[w]
            rm == [r \in 1..Len(S.routes) |-> Rx(S.routes[r].p, wm[w].final)]
            cset == {r \in 1..Len(S.routes) : rm[r].ok /\ rm[r].final \in {"", "/"}}
-           cands == [r \in cset |-> [lc |-> LitCount(S.routes[r].p), mc |-> VarCountOf(S.routes[r].p) + 1,
+           cands == [r \in cset |-> [lc |-> LitCount(S.routes[r].p), mc |-> GroupCountOf(S.routes[r].p) + 1,
                                      vc |-> VarCountOf(S.routes[r].p), path |-> S.routes[r].full]]
        IN IF cset = {} THEN {Err(404, <<>>)}
           ELSE {LET d == DetectRoute(S, order, req) IN
